@@ -7,6 +7,7 @@ import (
 	"go/token"
 	"go/types"
 	"sort"
+	"strings"
 
 	"golang.org/x/tools/go/packages"
 )
@@ -299,5 +300,98 @@ func prefilterFoldsRule(r *Report, p *Prog, rule string) {
 		r.bad(rule, key, p.pos(at), "the rune is looked up in the lower-case alphabet as written, although PEP 440 and the parser behind this filter are case-insensitive: a version or specifier with an upper-case letter among its first three bytes (1RC1, >=1RC1) is refused, while 1rc1 and 1.0RC1 are accepted")
 	default:
 		r.ok(rule, key, p.pos(at), "the rune is folded to lower case before the lookup")
+	}
+}
+
+// quoteCharsRule (C19.f QUOTE-CHARS): the writer of the attribute text form
+// quotes a value when its first byte would make a reader take it for a quoted
+// literal. Every reader of that form in the package that unquotes (the field
+// tokenizer behind ParseString, and ParseSingle for ATTR: lines) names the
+// leading bytes it treats as an opening quote; each of them must be a leading
+// byte the writer quotes, or a value that merely starts with that byte is
+// written bare and read back without it (or refused).
+func quoteCharsRule(r *Report, p *Prog, rule, rel string) {
+	pk := p.pkg(rel)
+	key := rel + ": leading bytes read as a quote are quoted by the writer"
+	if pk == nil {
+		r.bad(rule, key, "", "package not loaded: anchor lost")
+		return
+	}
+	leading := func(fd *ast.FuncDecl) map[string]bool {
+		out := map[string]bool{}
+		ast.Inspect(fd.Body, func(n ast.Node) bool {
+			be, ok := n.(*ast.BinaryExpr)
+			if !ok || be.Op != token.EQL {
+				return true
+			}
+			ix, ok := ast.Unparen(be.X).(*ast.IndexExpr)
+			lit, ok2 := ast.Unparen(be.Y).(*ast.BasicLit)
+			if !ok || !ok2 || lit.Kind != token.CHAR {
+				return true
+			}
+			if tv, ok := pk.TypesInfo.Types[ix.Index]; !ok || tv.Value == nil || tv.Value.String() != "0" {
+				return true
+			}
+			out[lit.Value] = true
+			return true
+		})
+		return out
+	}
+	calls := func(fd *ast.FuncDecl, name string) bool {
+		found := false
+		ast.Inspect(fd.Body, func(n ast.Node) bool {
+			if c, ok := n.(*ast.CallExpr); ok {
+				if s, ok := c.Fun.(*ast.SelectorExpr); ok && s.Sel.Name == name {
+					if id, ok := s.X.(*ast.Ident); ok && id.Name == "strconv" {
+						found = true
+					}
+				}
+			}
+			return true
+		})
+		return found
+	}
+	writer := map[string]bool{}
+	readers := map[string]map[string]bool{}
+	var wpos token.Pos
+	for _, f := range pk.Syntax {
+		if strings.HasSuffix(p.Fset.Position(f.Pos()).Filename, "_test.go") {
+			continue
+		}
+		for _, d := range f.Decls {
+			fd, ok := d.(*ast.FuncDecl)
+			if !ok || fd.Body == nil {
+				continue
+			}
+			if calls(fd, "Quote") {
+				for k := range leading(fd) {
+					writer[k] = true
+				}
+				wpos = fd.Pos()
+			}
+			if calls(fd, "Unquote") || calls(fd, "QuotedPrefix") {
+				readers[fd.Name.Name] = leading(fd)
+			}
+		}
+	}
+	if len(writer) == 0 || len(readers) == 0 {
+		r.bad(rule, key, "", "no writer that quotes or no reader that unquotes found in the package: anchor lost")
+		return
+	}
+	var bad []string
+	n := 0
+	for name, set := range readers {
+		for ch := range set {
+			n++
+			if !writer[ch] {
+				bad = append(bad, fmt.Sprintf("%s reads a leading %s as a quote", name, ch))
+			}
+		}
+	}
+	sort.Strings(bad)
+	if len(bad) > 0 {
+		r.bad(rule, key, p.pos(wpos), fmt.Sprintf("%s, but the writer does not quote a value that starts with it: such a value is written bare and read back without its first and last byte, or refused", strings.Join(bad, "; ")))
+	} else {
+		r.ok(rule, key, p.pos(wpos), fmt.Sprintf("%d leading bytes of %d readers, all quoted by the writer", n, len(readers)))
 	}
 }
